@@ -591,3 +591,56 @@ Proof.
     + destruct (to2_tunnel_gate _ _ _ _ _ _ RCH HS (or_intror (or_intror (or_intror (or_intror E))))) as [id [_ [_ PB]]]. exact (NP id PB).
     + destruct (handle_cases _ _ _ _ _ HS) as [[E0 _]|[[rt [s2 [_ [_ [_ X]]]]]|[id [s [rt [s2 [_ [_ [_ [_ [_ [X _]]]]]]]]]]]]; [subst; contradiction|discriminate|discriminate].
 Qed.
+
+(* ---- C19: sessions do not interfere (any interleaving of atomic requests) ---- *)
+(* a request that does not present session id's token leaves that session exactly as it was *)
+Theorem handle_frame st r st' resp eff id :
+  (id < length st)%nat -> (forall s, lookup st (r_tok r) <> Some (id, s)) ->
+  handle st r = (st', resp, eff) -> nth_error st' id = nth_error st id.
+Proof.
+  intros LT NT H.
+  assert (APP : forall x, nth_error (st ++ [x]) id = nth_error st id) by (intros; now rewrite nth_error_app1).
+  assert (UPD : forall id' s x, lookup st (r_tok r) = Some (id', s) -> nth_error (update st id' x) id = nth_error st id).
+  { intros id' s x L. apply nth_update_other. intros ->. exact (NT s L). }
+  unfold handle in H.
+  destruct (r_type r =? 255).
+  { destruct (lookup st (r_tok r)) as [[id' s]|] eqn:L; inversion H; subst; [eapply UPD; reflexivity|reflexivity]. }
+  destruct (proto_of (r_type r)); try (inversion H; subst; reflexivity);
+    (destruct (is_start (r_type r));
+     [unfold handle_start in H; destruct (respond _ _ _) as [[rt s2] e2]; destruct (rt =? 255); inversion H; subst; apply APP|];
+     destruct (is_client (r_type r) || needs_tunnel (r_type r))%bool; [|inversion H; subst; reflexivity];
+     unfold handle_cont in H; destruct (lookup st (r_tok r)) as [[id' s]|] eqn:L; [|inversion H; subst; reflexivity];
+     destruct (negb _); [inversion H; subst; eapply UPD; reflexivity|];
+     destruct (_ && _)%bool; [inversion H; subst; eapply UPD; reflexivity|];
+     destruct (respond _ _ _) as [[rt s2] e2]; destruct (rt =? 255); [inversion H; subst; eapply UPD; reflexivity|];
+     destruct (is_final rt); inversion H; subst; eapply UPD; reflexivity).
+Qed.
+
+(* what a request presenting session id's token gets — response, effects, and the session's next state — depends on
+   that session's own state only, not on how many or which other sessions exist *)
+Theorem handle_local st1 st2 r id :
+  r_tok r = TSess id -> is_start (r_type r) = false -> nth_error st1 id = nth_error st2 id ->
+  (id < length st1)%nat -> (id < length st2)%nat ->
+  snd (fst (handle st1 r)) = snd (fst (handle st2 r)) /\ snd (handle st1 r) = snd (handle st2 r) /\
+  nth_error (fst (fst (handle st1 r))) id = nth_error (fst (fst (handle st2 r))) id.
+Proof.
+  intros TK IS EQ L1 L2.
+  assert (LK : forall st, lookup st (r_tok r) = match nth_error st id with Some s => if s_alive s then Some (id, s) else None | None => None end)
+    by (intros; rewrite TK; reflexivity).
+  assert (U : forall x, nth_error (update st1 id x) id = nth_error (update st2 id x) id)
+    by (intros; now rewrite !nth_update_same).
+  unfold handle. rewrite IS. unfold handle_cont. rewrite (LK st1), (LK st2), <- EQ.
+  assert (FIN : forall (a b : server) (x : response) (e : list effect), nth_error a id = nth_error b id ->
+            snd (fst (a, x, e)) = snd (fst (b, x, e)) /\ snd (a, x, e) = snd (b, x, e) /\
+            nth_error (fst (fst (a, x, e))) id = nth_error (fst (fst (b, x, e))) id)
+    by (intros; cbn [fst snd]; auto).
+  destruct (r_type r =? 255).
+  { destruct (nth_error st1 id) as [s|] eqn:N; [destruct (s_alive s)|]; apply FIN; auto; congruence. }
+  destruct (proto_of (r_type r)); try (apply FIN; congruence);
+    (destruct (is_client (r_type r) || needs_tunnel (r_type r))%bool; [|apply FIN; congruence];
+     destruct (nth_error st1 id) as [s|] eqn:N; [destruct (s_alive s)|]; try (apply FIN; congruence);
+     destruct (negb _); [apply FIN; apply U|];
+     destruct (_ && _)%bool; [apply FIN; apply U|];
+     destruct (respond _ _ _) as [[rt s2] e2]; destruct (rt =? 255); [apply FIN; apply U|];
+     destruct (is_final rt); apply FIN; apply U).
+Qed.
